@@ -279,6 +279,30 @@ func genTargeted(t *rapid.T) Script {
 		}
 	}
 	focus := rapid.SampledFrom(focusKinds).Draw(t, "focus")
+	// destination preparation beyond growing: emptied by moving its content away (storage handed over or
+	// reset), or reset through its parent (a fresh, storage-less container)
+	switch rapid.SampledFrom([]string{"asis", "asis", "emptied", "parentreset"}).Draw(t, "prep") {
+	case "emptied":
+		if cs := candidates(m.enumerate(), dst); len(cs) > 0 {
+			other := cs[rapid.IntRange(0, len(cs)-1).Draw(t, "sink")].addr
+			kind := "moveto"
+			if _, ok := dst.typ.MethodByName("MoveAndAppendTo"); ok && rapid.Bool().Draw(t, "viaappend") {
+				kind = "moveappend"
+			}
+			if _, ok := dst.typ.MethodByName("MoveTo"); ok || kind == "moveappend" {
+				if add(Op{Kind: kind, At: dst.addr, Dst: &other}, true) {
+					return s
+				}
+			}
+		}
+	case "parentreset":
+		if n := len(dst.addr.Path); n > 0 && (dst.addr.Path[n-1].F == "Slice" || dst.addr.Path[n-1].F == "Map") {
+			parent := Addr{Root: dst.addr.Root, Path: append([]Step(nil), dst.addr.Path[:n-1]...)}
+			if add(Op{Kind: "vset", At: parent, Name: "SetEmpty" + dst.addr.Path[n-1].F}, true) {
+				return s
+			}
+		}
+	}
 	switch dst.cl {
 	case "mslice", "vslice":
 		for i, n := 0, rapid.IntRange(0, 3).Draw(t, "grow"); i < n; i++ {
@@ -340,7 +364,57 @@ func genTargeted(t *rapid.T) Script {
 	if add(op, ok) {
 		return s
 	}
-	// 3. mutate around both sides (and anywhere else), optionally freeze a root
+	// 3a. a moved-from source is typically refilled and reused: do that, within and beyond its old size
+	if (op.Kind == "moveto" || op.Kind == "moveappend") && rapid.Bool().Draw(t, "refill") {
+		for i, k := 0, rapid.IntRange(1, 4).Draw(t, "nrefill"); i < k; i++ {
+			all = m.enumerate()
+			var src *nodeInfo
+			for j := range all {
+				if len(all[j].addr.Path) == len(op.At.Path) && related(all[j].addr, op.At) {
+					src = &all[j]
+				}
+			}
+			if src == nil {
+				break
+			}
+			var fill string
+			switch src.cl {
+			case "mslice", "vslice":
+				fill = "append"
+			case "pslice":
+				fill = "pappend"
+			case "map":
+				fill = "put"
+			case "value":
+				fill = "vset"
+			case "message":
+				fill = "set"
+			}
+			if fill == "" {
+				break
+			}
+			if add(drawOpAt(t, m, all, *src, fill)) {
+				return s
+			}
+			if fill == "append" {
+				// write something into the new last element
+				all = m.enumerate()
+				_, ref, ok := m.resolve(src.addr)
+				if !ok {
+					break
+				}
+				last := src.addr.child(Step{I: len(asList(ref.get())) - 1})
+				for j := range all {
+					if len(all[j].addr.Path) == len(last.Path) && related(all[j].addr, last) {
+						if add(drawOpAt(t, m, all, all[j], "")) {
+							return s
+						}
+					}
+				}
+			}
+		}
+	}
+	// 3b. mutate around both sides (and anywhere else), optionally freeze a root
 	n := rapid.IntRange(1, 8).Draw(t, "nafter")
 	for i := 0; i < n; i++ {
 		all = m.enumerate()
